@@ -5,6 +5,7 @@ import string
 import sys
 from contextlib import suppress
 from enum import IntEnum
+from ipaddress import IPv6Address
 from re import Pattern
 from typing import (
     TYPE_CHECKING,
@@ -95,8 +96,11 @@ DIGITS: Final[Pattern[str]] = re.compile(r"\d+", re.ASCII)
 #     Host = uri-host [ ":" port ]
 # uri-host is a bracketed IP-literal or a non-empty reg-name (unreserved,
 # sub-delims, pct-encoded): no userinfo, path, query, fragment or blank.
+# An IP-literal is an IPv6address (group "v6", checked by _is_host_port(),
+# optionally followed by a zone) or an IPvFuture, nothing else.
 _HOST_RE: Final[Pattern[str]] = re.compile(
-    r"(?:\[[0-9A-Za-z\-._~%!$&'()*+,;=:]+\]"
+    r"(?:\[(?:(?P<v6>[0-9A-Fa-f:.]+)(?:%[0-9A-Za-z\-._~%]+)?"
+    r"|[vV][0-9A-Fa-f]+\.[0-9A-Za-z\-._~!$&'()*+,;=:]+)\]"
     r"|(?:[0-9A-Za-z\-._~!$&'()*+,;=]|%[0-9A-Fa-f]{2})+)(?::\d*)?",
     re.ASCII,
 )
@@ -262,6 +266,19 @@ def _is_supported_upgrade(headers: HeadersDictProxy) -> bool:
     u = headers.get(hdrs.UPGRADE, "")
     # .lower() can transform non-ascii characters.
     return u.isascii() and u.lower() in {"tcp", "websocket"}
+
+
+def _is_host_port(value: str) -> bool:
+    """Check that value is ``uri-host [ ":" port ]`` (RFC 9110, 7.2)."""
+    match = _HOST_RE.fullmatch(value)
+    if match is None:
+        return False
+    if match.group("v6") is not None:
+        try:
+            IPv6Address(match.group("v6"))
+        except ValueError:
+            return False
+    return True
 
 
 class HttpParser(abc.ABC, Generic[_MsgT]):
@@ -768,7 +785,7 @@ class HttpRequestParser(HttpParser[RawRequestMessage]):
                 # https://datatracker.ietf.org/doc/html/rfc7230#section-5.3.3
                 # uri-host [":" port], like Host: no userinfo, no path and
                 # a non-empty host.
-                if not _HOST_RE.fullmatch(path):
+                if not _is_host_port(path):
                     raise ValueError("CONNECT target is not in authority-form")
                 url = URL.build(authority=path, encoded=True)
             elif path.startswith("/"):
@@ -828,10 +845,11 @@ class HttpRequestParser(HttpParser[RawRequestMessage]):
             # https://www.rfc-editor.org/rfc/rfc9112#section-3.2-6
             # An invalid Host value is a client error; without this check it
             # only surfaces as a ValueError when ``request.url`` is built.
-            if not _HOST_RE.fullmatch(host):
+            if not _is_host_port(host):
                 raise BadHttpMessage("Invalid 'Host' header in request.")
             try:
-                URL.build(authority=host)
+                # yarl splits (and IDNA-decodes) the authority lazily.
+                URL.build(authority=host).host
             except ValueError as exc:
                 raise BadHttpMessage("Invalid 'Host' header in request.") from exc
 
